@@ -142,123 +142,136 @@ class Defined:
 
 
 # =============================================================================
-# writer templates
+# symbolic evaluation of one handler, and of the printing of the IR object it builds
 # =============================================================================
-class WriterModel:
-    """for Writer.visit_X: positional parameters and (for straight-line bodies) the emission order"""
-
-    def __init__(self, repo):
-        self.mod = repo.mod(WRITER)
-        self.cls = self.mod.cls("Writer")
-        self._order = {}
-
-    def params(self, method):
-        f = self.cls.lookup(method)
-        if f is None:
-            raise AnalysisError("Writer.%s vanished (an IR class calls visitor.%s)" % (method, method))
-        return f, f.params()[1:]
-
-    def order(self, method):
-        """sequence of parameter names in the order their text is emitted; None when the body is not straight-line"""
-        if method in self._order:
-            return self._order[method]
-        f, params = self.params(method)
-        self_name = f.params()[0]
-        seq = []
-        ok = True
-        for s in f.node.body:
-            if isinstance(s, ast.Expr) and isinstance(s.value, ast.Constant):
-                continue
-            if not (isinstance(s, ast.Expr) and isinstance(s.value, ast.Call) and isinstance(s.value.func, ast.Attribute)):
-                ok = False
-                break
-            c = s.value
-            recv = c.func.value
-            if isinstance(recv, ast.Name) and recv.id in params and c.func.attr == "visit":
-                seq.append(recv.id)
-            elif isinstance(recv, ast.Name) and recv.id == self_name:
-                used = [n.id for a in c.args for n in ast.walk(a) if isinstance(n, ast.Name) and n.id in params]
-                for k in c.keywords:
-                    if k.arg != "data":
-                        used += [n.id for n in ast.walk(k.value) if isinstance(n, ast.Name) and n.id in params]
-                seq.extend(used)
-            else:
-                ok = False
-                break
-        self._order[method] = seq if ok else None
-        return self._order[method]
+EXPR_METHODS = ("visit_binary_expression", "visit_cond_expression", "visit_unary_expression", "visit_cast")
 
 
-# =============================================================================
-# symbolic evaluation of one handler
-# =============================================================================
 class HandlerEval:
+    """handler -> IR object (helpers and constructors evaluated) -> printed signature (the object's visit() and the
+    Writer methods for expressions are evaluated too, every data-dependent path of them explored)"""
+
     def __init__(self, repo, folder):
         self.repo = repo
         self.folder = folder
-        self.writer = WriterModel(repo)
         self.instr = repo.mod(INSTR)
-        self.chain = []   # Func objects behind the signature currently being extracted
+        self.writer_cls = repo.mod(WRITER).cls("Writer")
+        self.const_cls = self.instr.cls("Constant")
 
     def make(self, choices):
-        ev = Evaluator(self.repo, self.folder, {OPC}, choices, hooks={"construct": self._on_construct})
-        return ev
+        return Evaluator(self.repo, self.folder, {OPC}, choices,
+                         hooks={"construct": self._on_construct, "visitor": self._on_visitor, "obj_method": self._on_obj_method})
 
+    # ---- hooks ---------------------------------------------------------------------------
     @staticmethod
     def _on_construct(ev, cls, args, kwargs, node, frame):
+        if ev.phase != "build":
+            return
         if cls.is_subclass_of("Variable") and args:
             ev.events.append(("reg", args[0], node, frame.func if frame else None))
         elif cls.name == "Constant" and (args or "value" in kwargs):
             ev.events.append(("lit", args[0] if args else kwargs["value"], node, frame.func if frame else None))
 
-    def paths(self, handler):
+    def writer_method(self, name):
+        f = self.writer_cls.lookup(name)
+        if f is None:
+            raise AnalysisError("Writer.%s vanished (an IR class calls visitor.%s)" % (name, name))
+        return f
+
+    def _on_visitor(self, ev, name, args, kwargs, node, fr):
+        """a call on the visitor / Writer-self sentinel"""
+        if name in EXPR_METHODS:
+            f = self.writer_method(name)
+            saved = ev.tokens
+            ev.tokens = []
+            try:
+                ev.call_func(f, [ev.VISITOR] + list(args), kwargs)
+                toks = ev.tokens
+            finally:
+                ev.tokens = saved
+            em = Emit(name, args, kwargs, node)
+            em.tokens = toks
+            return em
+        if name.startswith("visit_"):
+            self.writer_method(name)
+            return NotImplemented        # summarised positionally (Emit)
+        if ev.tokens is not None:
+            if name == "write" and args:
+                ev.tokens.append(("text", args[0]))
+            # write_ext / write_ind / end_ins ...: bookkeeping of the Writer, no expression text
+            return None
+        return NotImplemented
+
+    @staticmethod
+    def _on_obj_method(ev, obj, name, args, kwargs, node, fr):
+        if ev.phase != "visit":
+            return NotImplemented
+        if name == "visit" and args and args[0] is ev.VISITOR and ev.tokens is not None:
+            ev.tokens.append(("operand", obj))
+            return None
+        m = obj.cls.lookup(name)
+        if m is None:
+            return NotImplemented
+        return ev.call_func(m, args, kwargs, self_obj=obj, cls_ctx=m.cls)
+
+    # ---- evaluation ----------------------------------------------------------------------------
+    def paths(self, handler, scenario=None):
+        """every path of handler + printing.  -> list of (ev, result, signature | None) ; result may be PathRaise.
+        scenario = (field name, concrete int, type letter): the register operand `field` of the value expression has been
+        replaced by that constant (what constant propagation does) before printing."""
         params = handler.params()
         if not params:
             raise AnalysisError("handler %s takes no instruction parameter" % handler.qualname)
 
         def run(ev):
             args = [ev.INS] + [Opq("param", p) for p in params[1:]]
-            return ev.call_func(handler, args)
+            r = ev.call_func(handler, args)
+            ev.phase = "visit"
+            if scenario is not None:
+                self.propagate(ev, r, scenario)
+            ev.build_trace = list(ev.trace)   # everything entered before printing starts
+            ev.n_build_conds = len(ev.conds)
+            return r, self.neutral(ev, r)
 
-        return explore_paths(self.make, run)
+        out = []
+        for ev, r in explore_paths(self.make, run):
+            if isinstance(r, PathRaise):
+                out.append((ev, r, None))
+            else:
+                out.append((ev, r[0], r[1]))
+        return out
 
-    # ---- IR object -> Emit ---------------------------------------------------------
-    def visit(self, obj):
+    def propagate(self, ev, result, scenario):
+        fld, value, letter = scenario
+        vo = value_object(result)
+        vm = vo.state.get("var_map") if vo is not None else None
+        if not isinstance(vm, dict):
+            raise AnalysisError("cannot find the operand map of the expression built by the handler (constant propagation scenario)")
+        keys = [k for k, x in vm.items() if isinstance(x, Obj) and x.cls.is_subclass_of("Variable") and x.ctor_args
+                and x.ctor_args[0] == Field(fld)]
+        if len(keys) != 1:
+            raise AnalysisError("operand v%s not found in the expression's operand map" % fld)
+        vm[keys[0]] = ev.construct(self.const_cls, [value, letter], {})
+
+    def visit(self, ev, obj):
         vf = obj.cls.lookup("visit")
         if vf is None:
             raise AnalysisError("IR class %s has no visit()" % obj.cls.name)
-
-        def run(ev):
-            return ev.call_func(vf, [ev.VISITOR], self_obj=obj, cls_ctx=vf.cls)
-
-        # visit() must not mutate the object: evaluate on a shallow state copy
-        saved = dict(obj.state)
-        try:
-            res = explore_paths(self.make, run)
-        finally:
-            obj.state = saved
-        outs = [r for ev, r in res if not isinstance(r, PathRaise)]
-        for ev, r in res:
-            for fn in ev.trace:
-                if fn not in self.chain:
-                    self.chain.append(fn)
-        if len(res) != 1 or len(outs) != 1:
-            raise AnalysisError("%s.visit() depends on symbolic data (%d paths)" % (obj.cls.name, len(res)))
-        em = outs[0]
+        em = ev.call_func(vf, [ev.VISITOR], self_obj=obj, cls_ctx=vf.cls)
         if not isinstance(em, Emit):
             raise AnalysisError("%s.visit() does not return a visitor call" % obj.cls.name)
         return em
 
-    def neutral(self, v):
+    def neutral(self, ev, v):
         if isinstance(v, Obj):
             if v.cls.is_subclass_of("Variable"):
                 if not v.ctor_args:
                     raise AnalysisError("Variable constructed without a register")
                 return ("reg",) + (self.operand(v.ctor_args[0]),)
-            em = self.visit(v)
-            return self.neutral_emit(em, v)
+            em = self.visit(ev, v)
+            return self.neutral_emit(ev, em, v)
         if isinstance(v, Emit):
-            return self.neutral_emit(v, None)
+            return self.neutral_emit(ev, v, None)
         if v is None:
             return ("none",)
         if isinstance(v, Opq) and v.op == "param":
@@ -271,19 +284,39 @@ class HandlerEval:
             return x.name
         if isinstance(x, Opq) and x.op == "neg" and isinstance(x.args[0], Field):
             return ("neg", x.args[0].name)
-        if isinstance(x, (int, str)) or x is None:
+        if isinstance(x, bool) or x is None or isinstance(x, str):
             return ("py", x)
+        if isinstance(x, int):
+            return ("int", x)
         return ("?", show(x)[:80])
 
-    def neutral_emit(self, em, obj):
+    @staticmethod
+    def _split_tokens(m, toks, n_operands):
+        """-> (texts between operands as stripped strings, operand values)"""
+        texts = [""]
+        ops = []
+        for kind, v in toks:
+            if kind == "operand":
+                ops.append(v)
+                texts.append("")
+            else:
+                if not isinstance(v, str):
+                    raise AnalysisError("Writer.%s writes a text that is not a constant string: %s" % (m, show(v)))
+                texts[-1] += v
+        if len(ops) != n_operands:
+            raise AnalysisError("Writer.%s prints %d operands, expected %d" % (m, len(ops), n_operands))
+        return [t.strip() for t in texts], ops
+
+    def neutral_emit(self, ev, em, obj):
         m = em.method
-        f, params = self.writer.params(m)
-        if f not in self.chain:
-            self.chain.append(f)
+        f = self.writer_method(m)
+        params = f.params()[1:]
         if len(em.args) > len(params):
             raise AnalysisError("visitor.%s called with %d arguments, Writer.%s takes %d" % (m, len(em.args), m, len(params)))
         a = em.args
-        N = self.neutral
+
+        def N(x):
+            return self.neutral(ev, x)
 
         def lit(x):
             o = self.operand(x)
@@ -291,6 +324,8 @@ class HandlerEval:
                 return ("lit", o)
             if isinstance(o, tuple) and o[0] == "neg":
                 return ("neg", ("lit", o[1]))
+            if isinstance(o, tuple) and o[0] == "int":
+                return o
             return ("value", o)
 
         def tok(x):
@@ -303,29 +338,19 @@ class HandlerEval:
                 raise AnalysisError("visitor.%s called with %d arguments, expected >= %d" % (m, len(a), n))
 
         if m in ("visit_binary_expression", "visit_cond_expression"):
-            need(3)
-            order = self.writer.order(m)
-            if order is None or sorted(order) != sorted(params[:3]) or len(order) != 3:
-                raise AnalysisError("Writer.%s is not a straight-line template over its three parameters" % m)
-            byname = dict(zip(params, a))
-            # the operator is the argument that is a string token; the others are operands in emission order
-            pos = [p for p in order]
-            vals = [byname[p] for p in pos]
-            if not isinstance(vals[1], str):
-                raise AnalysisError("Writer.%s does not emit the operator between its operands (emission order %s, "
-                                    "middle value %s)" % (m, order, show(vals[1])))
-            kind = "binary" if m == "visit_binary_expression" else "cond"
-            return (kind, vals[1], N(vals[0]), N(vals[2]))
+            texts, ops = self._split_tokens(m, em.tokens, 2)
+            pre, mid, post = texts
+            if pre.strip("(") or post.strip(")") or len(pre) != len(post) or not mid:
+                raise AnalysisError("Writer.%s prints %r <operand> %r <operand> %r: not `left operator right`" % (m, pre, mid, post))
+            return ("binary" if m == "visit_binary_expression" else "cond", mid, N(ops[0]), N(ops[1]))
         if m in ("visit_unary_expression", "visit_cast"):
-            need(2)
-            order = self.writer.order(m)
-            if order is None or len(order) != 2 or sorted(order) != sorted(params[:2]):
-                raise AnalysisError("Writer.%s is not a straight-line template over its two parameters" % m)
-            byname = dict(zip(params, a))
-            vals = [byname[p] for p in order]
-            if not isinstance(vals[0], str):
-                raise AnalysisError("Writer.%s does not emit the operator before its operand" % m)
-            return ("unary" if m == "visit_unary_expression" else "cast", vals[0], N(vals[1]))
+            texts, ops = self._split_tokens(m, em.tokens, 1)
+            pre, post = texts
+            if post.strip(")") or not pre:
+                raise AnalysisError("Writer.%s prints %r <operand> %r: not a prefix operator" % (m, pre, post))
+            if post and pre.startswith("("):
+                pre = pre[1:].strip()
+            return ("unary" if m == "visit_unary_expression" else "cast", pre, N(ops[0]))
         if m == "visit_condz_expression":
             need(2)
             return ("condz", tok(a[0]), N(a[1]))
@@ -456,6 +481,8 @@ def render(sig):
         return "v%s" % (sig[1] if isinstance(sig[1], str) else render(sig[1]))
     if k == "lit":
         return "#%s" % sig[1]
+    if k == "int":
+        return "%d" % sig[1]
     if k == "neg":
         return "-%s" % render(sig[1])
     if k == "const":
@@ -555,9 +582,10 @@ def core(repo, sink, only_ops=None):
         sink.analysed(handler)
         sink.count("handlers")
         # ---- evaluate every path -----------------------------------------------------
-        paths = he.paths(handler)
+        paths3 = he.paths(handler)
+        paths = [(ev, r) for ev, r, sg in paths3]
         sink.count("paths", len(paths))
-        ok_paths = [(ev, r) for ev, r in paths if not isinstance(r, PathRaise)]
+        ok_paths = [(ev, r, sg) for ev, r, sg in paths3 if not isinstance(r, PathRaise)]
         if not ok_paths:
             raise AnalysisError("handler %s raises on every path" % handler.qualname)
         # ---- arity -------------------------------------------------------------------------
@@ -626,9 +654,9 @@ def core(repo, sink, only_ops=None):
         # ---- signature -----------------------------------------------------------------------
         exp = java_ops.SIG.get(op)
         sigs = []
-        for ev, r in ok_paths:
-            he.chain = [fn for fn in ev.trace if fn is not handler]
-            sigs.append((canon(he.neutral(r)), r, ev, list(he.chain)))
+        for ev, r, sg in ok_paths:
+            chain = [fn for fn in ev.trace if fn is not handler]
+            sigs.append((canon(sg), r, ev, chain))
         if exp is None:
             # role-only opcode: still must not be translated to nothing
             bad = [x[0] for x in sigs if x[0] == ("nop",)]
@@ -669,6 +697,8 @@ def core(repo, sink, only_ops=None):
                            "opcode 0x%02x (%s) computes a value of Dalvik type %r; %s tags the expression with %s"
                            % (op, name, et, handler.qualname, show(gt)), node=handler.node,
                            detail="type letter %s" % show(gt))
+        # ---- the same expression after constant propagation replaced a register operand -------------
+        scenario_checks(he, sink, op, name, handler, exp, java_ops.TYPE.get(op), ok_paths)
     # a shared builder / IR class / Writer method through which no translation comes out literally right and at
     # least two come out wrong is itself (or something all its users share is) the broken construct
     flagged = {k: u for k, u in users.items() if len(u[2]) >= 2 and u[3] == 0}
@@ -684,6 +714,166 @@ def core(repo, sink, only_ops=None):
                    % (len(which), len(ops), _cname(fn), ", ".join(which[:4]), ", ..." if len(which) > 4 else "", _cname(fn)),
                    node=fn.node, detail="%d/%d signatures through %s agree with the specification" % (len(ops) - len(which), len(ops), _cname(fn)))
     return he
+
+
+# =============================================================================
+# constant-propagation scenarios: data-dependent printing (operand is a constant, sign / boundary classes of its value)
+# =============================================================================
+INT_MIN, INT_MAX = -2 ** 31, 2 ** 31 - 1
+LONG_MIN, LONG_MAX = -2 ** 63, 2 ** 63 - 1
+
+
+def representative_values(letter, code_ints):
+    """one representative of every class of constants the printing code can tell apart: the type's boundaries, the
+    neighbourhood of zero, and the neighbourhood of every integer the printing code compares with"""
+    lo, hi = (INT_MIN, INT_MAX) if letter == "I" else (LONG_MIN, LONG_MAX)
+    cuts = {lo, lo + 1, -1, 0, 1, hi, INT_MIN - 1, INT_MIN, INT_MIN + 1, INT_MAX, INT_MAX + 1}
+    for k in code_ints:
+        for d in (-1, 0, 1):
+            cuts.add(k + d)
+            cuts.add(-k + d)
+    return sorted(v for v in cuts if lo <= v <= hi)
+
+
+def printable_int_literal(v):
+    """a decimal literal without suffix as the Writer prints it ('%r'): javac accepts 0..2^31-1, and 2^31 only under a unary minus"""
+    return INT_MIN <= v <= INT_MAX
+
+
+def _subst(sig, fld, value):
+    if sig == ("reg", fld):
+        return ("int", value)
+    if isinstance(sig, tuple):
+        return tuple(_subst(x, fld, value) for x in sig)
+    return sig
+
+
+def _lin(expr):
+    """(sign of the register, register, additive constant) of `reg +/- const` / `const +/- reg`, else None"""
+    if not (isinstance(expr, tuple) and len(expr) == 4 and expr[0] == "binary" and expr[1] in ("+", "-")):
+        return None
+    _, tok, l, r = expr
+    l, r = unconst(l), unconst(r)
+    if l[0] == "reg" and r[0] == "int":
+        return (1, l, r[1] if tok == "+" else -r[1])
+    if l[0] == "int" and r[0] == "reg":
+        return (1 if tok == "+" else -1, r, l[1])
+    return None
+
+
+def _ints(expr):
+    out = []
+    if isinstance(expr, tuple):
+        if len(expr) == 2 and expr[0] == "int":
+            out.append(expr[1])
+        else:
+            for x in expr:
+                out += _ints(x)
+    return out
+
+
+def judge_propagated(exp_val, got_val, letter, c):
+    """-> ('ok' | 'bad' | 'unknown', reason).  'bad' only when a difference is positively established."""
+    w = 32 if letter == "I" else 64
+    if not (isinstance(got_val, tuple) and got_val and got_val[0] == exp_val[0] and len(got_val) == len(exp_val)):
+        return "unknown", "printed as another kind of expression"
+    kind = exp_val[0]
+    g = (got_val[0], got_val[1], unconst(got_val[2]), unconst(got_val[3]))
+    e = exp_val
+    if kind == "cond":
+        if (g[2], g[3]) == (e[2], e[3]):
+            if g[1] == e[1]:
+                return "ok", ""
+            if g[1] in TEST_TOKENS and e[1] in TEST_TOKENS:
+                return "bad", "the same operands in the same order are compared with `%s` instead of `%s`" % (g[1], e[1])
+            return "unknown", "operator %r" % (g[1],)
+        if (g[2], g[3]) == (e[3], e[2]):
+            if java_ops.MIRROR.get(e[1]) == g[1]:
+                return "ok", ""
+            if g[1] in TEST_TOKENS and e[1] in TEST_TOKENS:
+                return "bad", ("the operands are exchanged, so `%s` must become `%s`, but `%s` is printed"
+                               % (e[1], java_ops.MIRROR[e[1]], g[1]))
+            return "unknown", "operator %r" % (g[1],)
+        return "unknown", "operands changed"
+    # binary
+    if same_sig(g, e):
+        pass_literal = True
+    else:
+        pass_literal = False
+        le, lg = _lin(e), _lin(g)
+        if le is None or lg is None:
+            return "unknown", "not literally the expected expression and outside the +/- family"
+        if lg[1] != le[1]:
+            return "unknown", "another register"
+        if lg[0] != le[0] or (lg[2] - le[2]) % (2 ** w) != 0:
+            return "bad", "it computes %s%s %+d instead of %s%s %+d (mod 2^%d)" % (
+                "-" if lg[0] < 0 else "", render(lg[1]), lg[2], "-" if le[0] < 0 else "", render(le[1]), le[2], w)
+    if printable_int_literal(c):
+        for v in _ints(g):
+            if not printable_int_literal(v):
+                return "bad", ("the literal %d is printed, which javac rejects (integer number too large): the negation of %d is not "
+                               "representable" % (v, c))
+    return "ok", ""
+
+
+def _abstract_c(sig, c):
+    """the signature with the scenario's constant written as `c` (finding keys do not depend on the representative value)"""
+    if isinstance(sig, tuple):
+        if len(sig) == 2 and sig[0] == "int":
+            if sig[1] == c:
+                return ("py", "c")
+            if sig[1] == -c:
+                return ("py", "-c")
+            return sig
+        return tuple(_abstract_c(x, c) for x in sig)
+    return sig
+
+
+def scenario_checks(he, sink, op, name, handler, exp, letter, base_paths):
+    if exp is None:
+        return
+    val = exp[2] if exp[0] == "assign" else exp
+    if not (isinstance(val, tuple) and val[0] in ("binary", "cond") and val[2][0] == "reg" and val[3][0] == "reg"):
+        return
+    if val[0] == "binary" and letter not in ("I", "J"):
+        return
+    letter = letter or "I"
+    # integers the printing code compares with (functions entered after the handler returned)
+    code_ints = set()
+    visit_funcs = []
+    for ev, r, sg in base_paths:
+        for fn in ev.trace:
+            if fn not in ev.build_trace and fn not in visit_funcs:
+                visit_funcs.append(fn)
+    for fn in visit_funcs:
+        for n in ast.walk(fn.node):
+            if isinstance(n, ast.Constant) and isinstance(n.value, int) and not isinstance(n.value, bool) and abs(n.value) > 2:
+                code_ints.add(n.value)
+    for fld in sorted({val[2][1], val[3][1]}):
+        for c in representative_values(letter, code_ints):
+            exp_val = (val[0], val[1], _subst(val[2], fld, c), _subst(val[3], fld, c))
+            for ev, r, sg in he.paths(handler, (fld, c, letter)):
+                if isinstance(r, PathRaise):
+                    continue
+                got = canon(sg)
+                got_val = got[2] if (exp[0] == "assign" and isinstance(got, tuple) and len(got) == 3 and got[0] == "assign") else got
+                if exp[0] == "assign" and got_val is got:
+                    raise AnalysisError("%s: after constant propagation the statement is printed as `%s`" % (handler.qualname, render(got)))
+                verdict, why = judge_propagated(exp_val, got_val, letter, c)
+                if verdict == "unknown":
+                    raise AnalysisError("%s with v%s = %d: `%s` is printed as `%s` (%s): cannot decide whether they are equivalent"
+                                        % (name, fld, c, render(exp_val), render(got_val), why))
+                sink.count("scenarios")
+                blame = handler
+                for fn in ev.trace:
+                    if fn not in ev.build_trace and any(isinstance(n, (ast.If, ast.IfExp)) for n in ast.walk(fn.node)):
+                        blame = fn
+                        break
+                sink.check("propagated-constant", "slot 0x%02x %s, v%s = %d" % (op, name, fld, c), verdict == "ok", blame,
+                           "%s printed as %s" % (render(_abstract_c(exp_val, c)), render(_abstract_c(got_val, c))),
+                           "opcode 0x%02x (%s) whose operand v%s has been replaced by the constant %d (constant propagation): `%s` is "
+                           "printed as `%s`: %s (decided in %s)" % (op, name, fld, c, render(exp_val), render(got_val), why, blame.qualname),
+                           node=blame.node, detail="%s -> %s" % (render(exp_val), render(got_val)))
 
 
 def _wild(got, exp):
@@ -794,6 +984,7 @@ def run(ctx):
     ctx.floor("type_letters", 117)
     ctx.floor("field_reads", 600)
     ctx.floor("role_uses", 400)
+    ctx.floor("scenarios", 500)
     ctx.assume("vmap.setdefault(r, Variable(r)) yields the variable of register r (an existing entry for r is a variable of r)")
     ctx.assume("the attribute X of an Instruction<fmt> object holds the operand field X of format <fmt> (decided under C01 through the getters)")
     ctx.note("operand fields with the spec role 'count' (A of 35c, AA of 3rc) carry no role obligation; "
